@@ -14,7 +14,16 @@ ASSUME = [
 ]
 
 
+# C11 from the writer's side: between two discovery events nothing (ACKNACKs, repair and heartbeat timers, writes, cache
+# cleaning) changes the set of readers the Writer holds proxies for (clause C11_writer_matched_set_differs_from_discovery
+# in Trace_RtpsWriter.tla, judged on the behaviours of RtpsWriter.tla and the random runs of the writer driver)
+WRITER_SRC = dict(driver="writer", model="RtpsWriter.tla", trace_module="Trace_RtpsWriter.tla", trace_cfg="Trace_RtpsWriter.cfg",
+                  tiers={"quick": dict(mc=[("MC_RtpsWriter_q_rel.cfg", 8)], replay_limit=2500, random=dict(runs=120, events=120)),
+                         "thorough": dict(mc=[("MC_RtpsWriter_t_all.cfg", 12)], replay_limit=30000, random=dict(runs=1500, events=300))})
+
+
 def run(pid, tier, seed, replay=None):
     return run_pipeline(pid, tier, seed, replay, driver="disc", model="Discovery.tla",
                         trace_module="Trace_Discovery.tla", trace_cfg="Trace_Discovery.cfg",
-                        tiers=TIERS, prefixes=(pid + "_",), assumptions=ASSUME, known_env=("KNOWN_S8",))
+                        tiers=TIERS, prefixes=(pid + "_",), assumptions=ASSUME, known_env=("KNOWN_S8",),
+                        extra_sources=((WRITER_SRC,) if pid == "C11" else ()))
